@@ -31,6 +31,11 @@ def make_cfg(rng):
     cfg.add(var(0x2001, 1, RW | P | A, 2, 2))
     gen.add_tpdo(cfg, 0, 0x40000180, 254, rng.choice([0, 100, 500]), rng.choice([0, 20, 100]), [gen.maplink(0x2001, 0, 8)])
     gen.add_tpdo(cfg, 1, 0x40000280, 255, rng.choice([0, 200]), rng.choice([0, 50]), [gen.maplink(0x2001, 1, 16)])
+    if rng.random() < 0.5:
+        # 1017h stored in the object entry itself (direct storage) instead of in a variable
+        o = cfg.get(0x1017, 0)
+        cfg.objs[cfg.objs.index(o)] = var(0x1017, 0, D | RW, 2, hb0, "hbprod")
+        cfg._index = None
     cfg.finalize()
     return cfg, nid, freq, hb0, ms_choices
 
@@ -155,6 +160,27 @@ def run_history(res, exe, rng, hidx):
                         m.set_mode(INIT, sim.tick); m.set_mode(PREOP, sim.tick); m.on_reset(sim.tick); boot = True
             elif x < 0.67:
                 ms = rng.choice([0] + ms_choices)
+                bad = [b for b in (1, 3, 5, 9) if 0 < b * freq < 1000]
+                if bad and rng.random() < 0.3:
+                    # a time the timer cannot resolve (below one tick): the write is refused and changes nothing - the heartbeat goes on
+                    ms = rng.choice(bad)
+                    if m.mode in (PREOP, OP) and rng.random() < 0.6:
+                        script.append("sdo write 1017 = %d (below one tick)" % ms)
+                        t0 = sim.tick
+                        code, evs = S.sdo_write(sim, nid, 0x1017, 0, ms, 2)
+                        refused = code is not None
+                    else:
+                        t0, evs = do("wr 1017 0 2 %x" % ms)
+                        r = [e for e in evs if e[0] == "ret"]
+                        refused = bool(r) and r[0][1] != "0"
+                    if not refused:
+                        fail("write-accepted/unresolvable", "write of %d ms to 1017h at %d Hz (less than one tick) was accepted" % (ms, freq)); return
+                    r = sim.ret("rd 1017 0 2")
+                    res.counters["unresolvable_writes_refused"] += 1
+                    err = observe(t0, evs, False)
+                    if err:
+                        fail("schedule/refused-write", err + " | script tail: " + "; ".join(script[-6:])); return
+                    continue
                 if m.mode in (PREOP, OP) and rng.random() < 0.6:
                     script.append("sdo write 1017 = %d" % ms)
                     t0 = sim.tick
